@@ -139,6 +139,19 @@ fn gen_contig(rng: &mut Rng, k: usize, earlier: &[Vec<u8>]) -> (Vec<u8>, &'stati
         let e: &Vec<u8> = rng.pick(earlier);
         return (rc_contig(e), "rcdup");
     }
+    if kind <= 9 {
+        // a contig that is exactly one k-window (or k+1, 2k-1 symbols) of an earlier contig, possibly
+        // reverse-complemented: its k-mers occur twice in the reference although the contig itself
+        // holds a single window
+        let cands: Vec<&Vec<u8>> = earlier.iter().filter(|e| e.len() >= 2 * k).collect();
+        if !cands.is_empty() {
+            let e = *rng.pick(&cands);
+            let l = *rng.pick(&[k, k, k + 1, 2 * k - 1]);
+            let a = rng.below((e.len() - l + 1) as u64) as usize;
+            let w = e[a..a + l].to_vec();
+            return (if rng.chance(1, 2) { rc_contig(&w) } else { w }, "window-copy");
+        }
+    }
     let len = match rng.below(10) {
         0 => rng.range(k as u64, (3 * k) as u64),
         1..=3 => rng.range(20, 300),
